@@ -271,7 +271,9 @@ Fixpoint wf_alloc (f : fmt) : bool :=
   | _ => true
   end.
 
-(* meter <= kf f * consumed on success; <= kf f * |input| + cf f on failure *)
+(* meter <= kf f * consumed on success; <= kf f * |input| + cf f on failure.
+   A list element costs its own decode plus the slice slot / appended copy / pointed-to
+   object (esz, 8*esz for append growth), spread over the >= minsz e bytes it consumes. *)
 Fixpoint kf (f : fmt) : N :=
   match f with
   | FUnit | FFail | FSkipOpt => 0
@@ -279,7 +281,7 @@ Fixpoint kf (f : fmt) : N :=
   | FVarUint | FDropVarUint => 9
   | FVarBytes _ => 33
   | FSeq a b | FCase _ _ a b | FCaseGe _ _ a b => N.max (kf a) (kf b)
-  | FCounted _ _ _ _ esz e => 9 + 9 * esz + kf e
+  | FCounted _ _ _ _ esz e => 11 + esz / minsz e + (8 * esz) / minsz e + kf e
   | FTag _ _ body => N.max 1 (kf body)
   end.
 
